@@ -1,4 +1,4 @@
 SPECIFICATION Spec
 CONSTANTS NOps = 2  IsWrite = FALSE  RegisterFirst = TRUE  DestructOnDone = FALSE  ErrnoFix = TRUE  Feeds = 2  WithFault = TRUE
-INVARIANTS IoCompletesExactlyOnce BytesAreTrue ErrorIsOsError DoneOnlyIfStopFired NoStaleKernelReference NoTouchAfterFree LaterActivityAffectsOnlyLaterOps QueueCountsConsistent
+INVARIANTS NoTouchAfterFree
 CHECK_DEADLOCK FALSE
